@@ -243,6 +243,27 @@ def f10_cases():
     return out
 
 
+def routing_cases():
+    """Sources registered at one or both of two open levels; the loop thread tries to close / register while a
+    submitter is inside the routing loop (on the unchanged code the lock makes those turns stutters)."""
+    out = []
+    # source 1 registered at level 0 only; nested level open; close_loop attempted during the routing loop
+    progs = [[[2, 1], [3, 9, 0, []], [4], [1], [1]], [[0, 1, 0, [1]]]]
+    for a in range(1, 12):
+        for b in (3, 5, 7, 8):
+            out.append(dict(progs=progs, sched=[0] * 23 + [1] * a + [0] * b + [1] * 20 + [0] * 12, note="close during routing a=%d b=%d" % (a, b)))
+    # source 1 registered at both levels: must go to the inner one; two signals of one thread keep their order
+    progs = [[[2, 1], [3, 9, 0, []], [2, 1], [1], [1], [1]], [[0, 1, 0, [1]], [0, 2, 0, [1]]], [[0, 3, 0, [1]]]]
+    for a in range(0, 14, 2):
+        for b in (0, 3, 9):
+            out.append(dict(progs=progs, sched=[0] * 26 + [1] * a + [2] * b + [1] * 30 + [2] * 20 + [0] * 3, note="registered at both levels a=%d b=%d" % (a, b)))
+    # registration of the inner level racing with the routing loop
+    progs = [[[2, 1], [3, 9, 0, []], [2, 1], [1], [1]], [[0, 1, 0, [1]]]]
+    for a in range(0, 12):
+        out.append(dict(progs=progs, sched=[0] * 23 + [1] * a + [0] * 3 + [1] * 20 + [0] * 2, note="register racing with routing a=%d" % a))
+    return out
+
+
 def corpus_cases():
     out = []
     for p in sorted(glob.glob(os.path.join(CORPUS, "*.json"))):
@@ -268,13 +289,23 @@ SMALL_CONFIGS = [
 
 
 # ------------------------------------------------------------------ running
+REPORTED = {}
+
+
+def report(chk, key, what, replay, found):
+    """chk.violation keeps the first 20 reports only: do not let one kind of failure crowd out the others."""
+    REPORTED[key] = REPORTED.get(key, 0) + 1
+    if REPORTED[key] <= 2 or key == KNOWN_KEY:
+        chk.violation(key, what, replay, found=found)
+
+
 def judge(chk, case, impl, model, origin):
     chk.count()
     chk.hist("origin=" + origin)
     if impl.get("hang"):
         chk.hist("impl=hang")
-        chk.violation("impl-hang", "the implementation did not reach its next shared access under the scheduler: %s" % impl["hang"],
-                      dict(kind="conc", case=case, impl=impl), found=True)
+        report(chk, "impl-hang", "the implementation did not reach its next shared access under the scheduler: %s" % impl["hang"],
+                      dict(kind="conc", case=case, impl=impl), True)
         return
     if nontrivial(impl):
         chk.nontriv(case)
@@ -284,12 +315,12 @@ def judge(chk, case, impl, model, origin):
     if impl["state"][0]:
         chk.hist("force_quit")
     if impl.get("errors"):
-        chk.violation("impl-exception", "a thread of the implementation raised %s" % impl["errors"],
-                      dict(kind="conc", case=case, impl=impl), found=True)
+        report(chk, "impl-exception", "a thread of the implementation raised %s" % impl["errors"],
+                      dict(kind="conc", case=case, impl=impl), True)
     verdicts = evaluate(case, impl)
     for key, what in verdicts:
         chk.hist("verdict=" + key)
-        chk.violation(key, what, dict(kind="conc", case=case, impl=impl, model=model), found=True)
+        report(chk, key, what, dict(kind="conc", case=case, impl=impl, model=model), True)
     diff = differing(impl, model)
     if diff:
         chk.hist("model-differs")
@@ -297,7 +328,7 @@ def judge(chk, case, impl, model, origin):
         bad = [v for v in verdicts if v[0] != KNOWN_KEY]
         what = ("implementation and proved model differ on %s for schedule %s: e.g. %s: impl %s / model %s"
                 % (diff, case["sched"][:80], diff[0], str(impl.get(diff[0]))[:300], str(model.get(diff[0]))[:300]))
-        chk.violation("conc-differs:" + diff[0], what, dict(kind="conc", case=case, impl=impl, model=model), found=bool(bad))
+        report(chk, "conc-differs:" + diff[0], what, dict(kind="conc", case=case, impl=impl, model=model), bool(bad))
     else:
         # the model's own outcome must satisfy the same evaluation (sanity of evaluate vs theorems)
         pass
@@ -323,6 +354,7 @@ def run(chk, tier):
     try:
         run_batch(chk, pool, corpus_cases(), "corpus")
         run_batch(chk, pool, f10_cases(), "f10-neighbourhood")
+        run_batch(chk, pool, routing_cases(), "routing")
         nrand = 450 if tier == "quick" else 6000
         rnd = []
         for i in range(nrand):
